@@ -113,6 +113,12 @@ def execute(case):
                     'the consumer stopped at event %d (%s) by %s; faults %r'
                     % (base, srec['sock'], idx, evname, how,
                        case.get('faults')))
+    if rel.get('selectors_created', 0) != rel.get('selectors_closed', 0):
+        res.bad('C13/selector_not_closed/%s/%s' % (how, evname),
+                'base %s: %d selector(s) created, %d closed after the '
+                'consumer stopped at event %d (%s) by %s' % (
+                    base, rel.get('selectors_created'),
+                    rel.get('selectors_closed'), idx, evname, how))
     if rel['polls_alive']:
         res.bad('C13/selector_alive/%s/%s' % (how, evname),
                 '%d poll object(s) still reachable' % rel['polls_alive'])
